@@ -182,24 +182,26 @@ def run(tier, seed):
     states += re_.distinct
     trans += re_.generated
     for x in re_.records:
-        c, s, d, rr = x["c"], x["s"], x["d"], x["r"]
+        c, s, d, rr = x["c"], x["s"], x["d"], x["r"] / float(x["rd"])
         cy, cz = x["cen"][0] / 4.0, x["cen"][1] / 4.0
         dety, detz = x["dety"] / x["den"], x["detz"] / x["den"]
         desc = {"eta_cos_sin": [c, s, d], "radius": rr, "centre": [cy, cz], "dety": dety, "detz": detz}
         v.case(("eta", c, s, d, rr, tuple(x["cen"])), sample=desc if len(v.samples) < 6 and rr == 7 else None)
+        if abs(rr * d - round(rr * d)) > 1e-12 and not (abs(s) == d or abs(c) == d):
+            pass
         eta, rad = detector.detyz_to_eta_and_radpix(np.array([dety, detz]), cy, cz)
         tol = 1e-9
         if not (0 <= eta <= 360):
             v.violation("detyz_to_eta_and_radpix returned eta=%r outside [0,360]" % eta, desc)
         if abs(rad - rr) > tol * rr or abs(math.cos(math.radians(eta)) - c / d) > 1e-7 or \
                 abs(math.sin(math.radians(eta)) - s / d) > 1e-7:
-            v.violation("detyz_to_eta_and_radpix(%s) = (%r, %r); exact point has cos,sin(eta) = %d/%d, %d/%d, radius %d"
+            v.violation("detyz_to_eta_and_radpix(%s) = (%r, %r); exact point has cos,sin(eta) = %d/%d, %d/%d, radius %g"
                         % ([dety, detz], eta, rad, c, d, s, d, rr), desc)
         etad = math.degrees(math.atan2(s, c)) % 360.0
         back = detector.eta_and_radpix_to_detyz(etad, rr, cy, cz)
         scale = max(1.0, abs(dety), abs(detz))
         if abs(back[0] - dety) > 1e-9 * scale or abs(back[1] - detz) > 1e-9 * scale:
-            v.violation("eta_and_radpix_to_detyz(%r, %d) = %s, exact point %s" % (etad, rr, list(map(float, back)), [dety, detz]), desc)
+            v.violation("eta_and_radpix_to_detyz(%r, %g) = %s, exact point %s" % (etad, rr, list(map(float, back)), [dety, detz]), desc)
         rt = detector.eta_and_radpix_to_detyz(eta, rad, cy, cz)
         if abs(rt[0] - dety) > 1e-9 * scale or abs(rt[1] - detz) > 1e-9 * scale:
             v.violation("(dety,detz) -> (eta,radius) -> (dety,detz) round trip moves the point %s to %s" %
